@@ -156,6 +156,7 @@ pub fn generate(rng: &mut Rng, tier: Tier) -> Scenario {
     let faulty_continuation = rng.chance(0.5);
     let mut buf = vec![];
     for _ in 0..cycles {
+        let cycle_start = ops.len();
         // phase 1: history in a random regime under a random fault subset (10-20% fault free)
         let mut w = World::random(rng);
         let plan = if rng.chance(0.15) { FaultPlan::none() } else { FaultPlan::swarm(rng, &ALL_FEED_FAULTS, 0.005, 0.6) };
@@ -192,17 +193,34 @@ pub fn generate(rng: &mut Rng, tier: Tier) -> Scenario {
         if rng.chance(0.1) {
             ops.push(Op::Format { n: 0 });
         }
-        // phase 3: continuation from a different stretch of the world
-        let mut w2 = World::random(rng);
-        let plan2 = if faulty_continuation { FaultPlan::swarm(rng, &ALL_FEED_FAULTS, 0.01, 0.5) } else { FaultPlan::none() };
+        // phase 3: continuation. Mostly from a different stretch of the world (the tests' habit of
+        // re-feeding the same data hides stale windows); sometimes the same world simply goes on
+        // (exact repeats of earlier values in flat / few-valued / alternating regimes); sometimes the
+        // history itself is fed again (stale state that only shows when old and new values coincide).
         let clen = rng.range(sp + 2, 3 * sp + 20);
-        let mut fed = 0;
-        while fed < clen {
-            buf.clear();
-            world::tick(&mut w2, &plan2, rng, &mut buf);
-            for (x, f) in buf.drain(..) {
-                ops.push(Op::Feed { n: 0, x, f });
-                fed += 1;
+        let how = rng.below(10);
+        let hist: Vec<(Input, Fault)> = ops[cycle_start..].iter().filter_map(|o| if let Op::Feed { x, f, .. } = o { Some((*x, *f)) } else { None }).collect();
+        if how >= 8 && !hist.is_empty() {
+            let off = if rng.chance(0.5) { 0 } else { rng.range(0, hist.len() - 1) };
+            for j in 0..clen {
+                let (x, f) = hist[(off + j) % hist.len()];
+                if !faulty_continuation && !(x.all_finite() && x.valid_item()) {
+                    ops.push(Op::Feed { n: 0, x: w.clean(), f: Fault::Clean });
+                } else {
+                    ops.push(Op::Feed { n: 0, x, f });
+                }
+            }
+        } else {
+            let mut w2 = if how >= 6 { w.clone() } else { World::random(rng) };
+            let plan2 = if faulty_continuation { FaultPlan::swarm(rng, &ALL_FEED_FAULTS, 0.01, 0.5) } else { FaultPlan::none() };
+            let mut fed = 0;
+            while fed < clen {
+                buf.clear();
+                world::tick(&mut w2, &plan2, rng, &mut buf);
+                for (x, f) in buf.drain(..) {
+                    ops.push(Op::Feed { n: 0, x, f });
+                    fed += 1;
+                }
             }
         }
     }
@@ -213,6 +231,7 @@ pub fn generate(rng: &mut Rng, tier: Tier) -> Scenario {
 // deterministic sweep (fixed corpus, seed independent): every history over a small alphabet up to
 // depth D for periods 1..=4, then reset, then three fixed continuations
 
+const NCONT: u64 = 4;
 const ALPHA: [f64; 6] = [-1.0, 0.0, 1.0, 2.0, f64::NAN, f64::INFINITY];
 
 fn sweep_specs() -> Vec<NodeSpec> {
@@ -244,15 +263,15 @@ fn sweep_specs() -> Vec<NodeSpec> {
 
 /// number of histories of length 0..=depth over an alphabet of 7 symbols
 fn n_hist(depth: u32) -> u64 {
-    (0..=depth).map(|d| 7u64.pow(d)).sum()
+    (0..=depth).map(|d| 7u64.pow(d)).sum::<u64>()
 }
 
 fn sweep_scenario(idx: u64, specs: &[NodeSpec], depth: u32) -> Scenario {
-    let per_spec = n_hist(depth) * 3;
+    let per_spec = n_hist(depth) * NCONT;
     let spec = specs[(idx / per_spec) as usize];
     let mut r = idx % per_spec;
-    let cont = r % 3;
-    r /= 3;
+    let cont = r % NCONT;
+    r /= NCONT;
     // decode history number r: lengths 0..=depth
     let mut len = 0u32;
     let mut base = 0u64;
@@ -262,8 +281,12 @@ fn sweep_scenario(idx: u64, specs: &[NodeSpec], depth: u32) -> Scenario {
     }
     let mut code = r - base;
     let mut ops = vec![];
+    let mut first_val: Option<f64> = None;
     for _ in 0..len {
         let s = (code % 7) as usize;
+        if s < 6 && first_val.is_none() {
+            first_val = Some(ALPHA[s]);
+        }
         code /= 7;
         if s == 6 {
             ops.push(Op::Reset { n: 0 });
@@ -285,6 +308,12 @@ fn sweep_scenario(idx: u64, specs: &[NodeSpec], depth: u32) -> Scenario {
         let (x, f) = match cont {
             0 => (Input::scalar(3.0 + j as f64), Fault::Clean),
             1 => (Input::scalar(9.0 - (j / 2) as f64), Fault::Clean),
+            3 => {
+                // values of the history alphabet again, starting with the very first value of the history
+                let cyc = [1.0, 1.0, 2.0, 0.0, -1.0, 2.0, 0.0];
+                let v = if j == 0 { first_val.filter(|v| v.is_finite()).unwrap_or(1.0) } else { cyc[j % cyc.len()] };
+                (Input::scalar(v), Fault::Clean)
+            }
             _ => {
                 if j == 0 {
                     (Input::scalar(f64::NAN), Fault::Nan)
@@ -311,7 +340,8 @@ pub fn run(tier: Tier) -> i32 {
         Tier::Thorough => Duration::from_secs(1500),
     };
     let specs = sweep_specs();
-    let sweep_runs = specs.len() as u64 * n_hist(depth) * 3;
+    let sweep_runs = if gen::skip_fixed() { 1 } else { specs.len() as u64 * n_hist(depth) * NCONT };
+    let seeded_runs = gen::scaled(seeded_runs);
     let sweep = run_stage("sweep", sweep_runs, wall_cap, &mut total, &|i| sweep_scenario(i, &specs, depth), &exec_guarded, &[4321], 32);
     let seeded = if sweep.found.is_none() {
         Some(run_stage("seeded", seeded_runs, wall_cap, &mut total, &|i| generate(&mut Rng::new(run_seed(c.seed, PROP, "seeded", i)), tier), &exec_guarded, &[0, 1], 24))
@@ -330,7 +360,7 @@ pub fn run(tier: Tier) -> i32 {
         &total,
         report::EvidenceMeta {
             level: "exploration",
-            rule: "one evaluation = one scenario (history, reset(s), continuation) executed against the real crate. Seeded scenarios: random indicator/parameters/input mode, up to 4 cycles of fault-laden history + reset (storms included) + continuation drawn from a different stretch of the simulated market, compared tick by tick with a twin constructed at the reset. Sweep scenarios: every history over {-1,0,1,2,NaN,+inf,Reset} up to the stated depth for periods 1..=4, then reset, then 3 fixed continuations. distinct_nontrivial counts distinct situations (indicator, period bucket, window phase of the compared tick since reset, input mode, fault most recently seen before the reset, history length class, fault of the compared tick) in which a post-reset output was actually compared with the twin; comparisons before any reset are trivial and not counted.",
+            rule: "one evaluation = one scenario (history, reset(s), continuation) executed against the real crate. Seeded scenarios: random indicator/parameters/input mode, up to 4 cycles of fault-laden history + reset (storms included) + continuation drawn from a different stretch of the simulated market (or the same market going on, or the history itself fed again), compared tick by tick with a twin constructed at the reset. Sweep scenarios: every history over {-1,0,1,2,NaN,+inf,Reset} up to the stated depth for periods 1..=4, then reset, then 4 fixed continuations (ascending, descending with ties, NaN-first bars, the history's own alphabet again). distinct_nontrivial counts distinct situations (indicator, period bucket, window phase of the compared tick since reset, input mode, fault most recently seen before the reset, history length class, fault of the compared tick) in which a post-reset output was actually compared with the twin; comparisons before any reset are trivial and not counted.",
             assumptions: vec![
                 "oracle = the same real code freshly constructed; a defect shared by both sides (wrong formula) is invisible by construction".into(),
                 "comparison: bit-identical, else both NaN / equal infinities / |a-b| <= 1e-12*max(|a|,|b|,natural scale)".into(),
